@@ -52,6 +52,11 @@ CLASSES: dict[str, ClassSchema] = {}
 CONTRACTS: dict[str, Contract] = {}
 FUNSPECS: dict[str, Contract] = {}
 GLOBALS: dict[str, tuple] = {}      # "mako.runtime:UNDEFINED" -> (Ty, kind)
+GHOSTS: dict[str, Ty] = {}          # ghost variables (G.name in clauses) -> type
+
+
+def GHOST(name, ty, note=""):
+    GHOSTS[name] = parse_ty(ty)
 
 
 def _clauses(xs, default_klass="P"):
